@@ -361,6 +361,42 @@ MUTANTS = [
                     }""", new="""                    self.push_op(SetNull, &[result_register]);""", expect="V-codegen::Compiler::compile_return::bare_return_returns_null"),
     dict(name="codegen_output_type_check_ignores_declared_type", kind="break", prop="C16", units=["V-codegen"], file="crates/bytecode/src/compiler.rs",
          old="        if let Some(output_type) = self.frame().output_type {\n            self.compile_assert_type(register, output_type, span, ctx)?;\n        }", new="        if let Some(output_type) = self.frame().output_type {\n            let _ = (register, output_type, span, ctx);\n        }", expect="V-codegen::Compiler::compile_check_output_type::declared_output_type_asserted"),
+    dict(name="codegen_small_int_negative_not_negated", kind="break", prop="C01", units=["V-codegen"], file="crates/bytecode/src/compiler.rs",
+         old="n => self.push_op(SetNumberNegU8, &[result, n.unsigned_abs() as u8]),", new="n => self.push_op(SetNumberNegU8, &[result, n as u8]),", expect="V-codegen::Compiler::compile_node__small_int_arm::literal_value_in_one_instruction"),
+    dict(name="codegen_small_int_one_is_zero", kind="break", prop="C01", units=["V-codegen"], file="crates/bytecode/src/compiler.rs",
+         old="                        1 => self.push_op(Set1, &[result]),", new="                        1 => self.push_op(Set0, &[result]),", expect="V-codegen::Compiler::compile_node__small_int_arm::literal_value_in_one_instruction"),
+    dict(name="codegen_throw_temp_not_released", kind="break", prop="C01", units=["V-codegen"], file="crates/bytecode/src/compiler.rs",
+         old="""                self.push_op(Throw, &[expression_register]);
+
+                if expression_result.is_temporary {
+                    self.pop_register()?;
+                }""", new="""                self.push_op(Throw, &[expression_register]);""", expect="V-codegen::Compiler::compile_node__throw_arm::temporaries_released"),
+    dict(name="codegen_throw_without_span", kind="break", prop="C12", units=["V-codegen"], file="crates/bytecode/src/compiler.rs",
+         old="                self.push_op(Throw, &[expression_register]);", new="                self.push_op_without_span(Throw, &[expression_register]);", expect="V-codegen::Compiler::compile_node__throw_arm::value_then_throw"),
+    dict(name="codegen_compound_operands_swapped", kind="break", prop="C01", units=["V-codegen"], file="crates/bytecode/src/compiler.rs",
+         old="            self.push_op(op, &[lhs_register, rhs_register]);\n\n            // If the LHS is a top-level ID", new="            self.push_op(op, &[rhs_register, lhs_register]);\n\n            // If the LHS is a top-level ID", expect="V-codegen::Compiler::compile_compound_assignment_op::target_updated_in_place_then_copied_to_the_result"),
+    dict(name="codegen_compound_result_not_copied", kind="break", prop="C01", units=["V-codegen"], file="crates/bytecode/src/compiler.rs",
+         old="""            if let Some(result_register) = result.register {
+                self.push_op(Op::Copy, &[result_register, lhs_register]);
+            }
+
+            if lhs.is_temporary {""", new="""            if lhs.is_temporary {""", expect="V-codegen::Compiler::compile_compound_assignment_op::target_updated_in_place_then_copied_to_the_result"),
+    dict(name="codegen_compound_chain_without_operator", kind="break", prop="C01", units=["V-codegen"], file="crates/bytecode/src/compiler.rs",
+         old="                Some(rhs_register),\n                Some(op),\n                ctx.with_fixed_register_or_none(result.register),", new="                Some(rhs_register),\n                None,\n                ctx.with_fixed_register_or_none(result.register),", expect="V-codegen::Compiler::compile_compound_assignment_op::chain_target_gets_value_and_operator"),
+    dict(name="codegen_compound_multiply_is_add", kind="break", prop="C01", units=["V-codegen"], file="crates/bytecode/src/compiler.rs",
+         old="            MultiplyAssign => Op::MultiplyAssign,", new="            MultiplyAssign => Op::AddAssign,", expect="V-codegen::Compiler::compile_compound_assignment_op::"),
+    dict(name="codegen_compound_rhs_temp_not_released", kind="break", prop="C01", units=["V-codegen"], file="crates/bytecode/src/compiler.rs",
+         old="""        if rhs.is_temporary {
+            self.pop_register()?;
+        }
+
+        Ok(result)
+    }
+
+    fn compile_comparison_op(""", new="""        Ok(result)
+    }
+
+    fn compile_comparison_op(""", expect="V-codegen::Compiler::compile_compound_assignment_op::temporaries_released"),
     # ---- V-adaptors2
     dict(name="chunks_f35_capacity_is_the_chunk_size", kind="break", prop="C06", units=["V-adaptors2"], file="crates/runtime/src/core_lib/iterator/adaptors.rs",
          old=".get_or_insert_with(|| Vec::with_capacity(capacity))", new=".get_or_insert_with(|| Vec::with_capacity(self.chunk_size))", expect="V-adaptors2::Chunks::next::chunk_buffer_allocatable"),
